@@ -10,7 +10,7 @@ from harness.framerig import FrameRig
 
 THEOREM_MODULES = ['ExaModel.Props.C06']
 DRIVERS = ['drv_frame']
-TABLES = ['msglength']
+TABLES = ['msglength', 'pyframe']
 ASSUMPTIONS = [
     'the kernel delivers the byte stream in order (TCP); OS-level socket errors are outside the model',
     'the reader task consumes everything the kernel has before a cancellation is processed (asyncio semantics)',
